@@ -23,7 +23,7 @@ ASSUMPTIONS = ['labels are demanded for clear-cut text only: valid JSON object/a
                'an Accept header with wildcards does not decide between JSON and HTML (O6)',
                'HTML tables are demanded for tabular shapes only (O10); mappings have string keys (or keys of one type)',
                'JSON round trips exclude NaN/Infinity, non-string keys and lone surrogates']
-REQUIRED_REACH = ['rendered-on-another-thread', 'basic:text-json', 'basic:text-html', 'basic:text-plain', 'basic:bytes', 'basic:scalar', 'basic:None',
+REQUIRED_REACH = ['json:collection-or-convertible-in-any-mode', 'rendered-on-another-thread', 'basic:text-json', 'basic:text-html', 'basic:text-plain', 'basic:bytes', 'basic:scalar', 'basic:None',
                   'basic:object', 'basic:generator', 'basic:mapping-json', 'basic:sequence-json', 'basic:table', 'basic:set',
                   'basic:response-passthrough', 'json:roundtrip', 'json-dev:repr-fallback', 'json:streaming', 'jsonp:callback',
                   'jsonp:no-callback', 'label:application/json', 'label:text/html', 'label:text/plain']
@@ -56,7 +56,9 @@ class Plain(object):
 
 TEXTS_PLAIN = ['hello', '', 'plain text with spaces', 'caf\xe9 ☃ 日本', 'a\nb\nc', 'x' * 5000, 'null', '42', 'true', '"quoted"',
                'key: value', 'not {json}', 'a < b & c > d', 'ends with }', 'tab\tsep', '\x00\x01\x7f',
-               ' ', '\n', ' \t\r\n ', '\r\n', '\x0b\x0c', '\u00a0', '\u2028', ' x ', '\n\nx']
+               ' ', '\n', ' \t\r\n ', '\r\n', '\x0b\x0c', '\u00a0', '\u2028', ' x ', '\n\nx',
+               # JSON padded with characters that are blank to Python's str.strip() but are not JSON whitespace: not JSON, other text
+               '\u00a0{"a": 1}', '[1, 2, 3]\u2028', '\x1f{"a": 1}', '{"a": 1}\u3000', '\u2003[1, 2]\u2003', '\x1c[]\x1d', '\u0085{}', '{"k": [1]}\ufeff']
 TEXTS_HTML = ['<!-- generated 2024-01-01 -->\n<html><body>hi</body></html>', '\ufeff<html><body>bom</body></html>',
               '<?xml version="1.0" encoding="UTF-8"?>\n<!DOCTYPE html>\n<html><body>x</body></html>', 'Report follows:\n<html><body>r</body></html>',
               '<!DOCTYPE html>\n<!-- banner -->\n<html lang="en"><body>c</body></html>', '  \n\t<html>\n</html>', '<HTML><BODY>upper</BODY></HTML>'.lower(),
@@ -97,20 +99,30 @@ def json_native(rng, depth=0):
     if r == 3:
         return rng.chance(0.5)
     if r in (4, 5):
-        return rng.pick(['', 's', 'caf\xe9', '☃ 日本', 'with "quotes" and \\ backslash', '</script>', 'line\nbreak', '\x00\x1f', 'a' * 200,
+        return rng.pick(['', 's', 'caf\xe9', '☃ 日本', 'Zoe\u0308', '\u212b\u2126\u212a', '\uf900 \ufb01', '\u1112\u1161\u11ab', 'q\u0323\u0307', '\U0001f600', 'with "quotes" and \\ backslash', '</script>', 'line\nbreak', '\x00\x1f', 'a' * 200,
                          # text that looks like JSON's own vocabulary
                          'Avengers: Infinity War', 'got NaN (line 3)', 'x = -Infinity;', 'NaN', 'null', 'true', 'a: null, b: true', '[1, 2]',
                          '{"k": 1}', '\\u0041', '\\n', 'tab\there', '/* comment */', '1e5', '// x'])
     if r in (6, 7) and depth < 3:
         return [json_native(rng, depth + 1) for _ in range(rng.randint(0, 4))]
     if r in (8, 9) and depth < 3:
-        return dict((rng.pick(['a', 'b', 'key', 'é', '', 'a b', 'z' * 20, '1', 'is NaN ok', 'to Infinity and', 'null', '"q"']), json_native(rng, depth + 1)) for _ in range(rng.randint(0, 4)))
+        return dict((rng.pick(['a', 'b', 'key', 'é', 'e\u0301', '\u212b', '\u00c5', '', 'a b', 'z' * 20, '1', 'is NaN ok', 'to Infinity and', 'null', '"q"']), json_native(rng, depth + 1)) for _ in range(rng.randint(0, 4)))
     return rng.pick(['x', 'y'])
 
 
 def exotic(rng, depth=0):
     """values beyond JSON-native: -> (value factory result, jsonable expectation or None)"""
-    r = rng.randrange(9)
+    r = rng.randrange(11)
+    if r >= 9:
+        # collections that are not JSON-native but are collections all the same - sized, iterable, mappings - also when
+        # they are empty: every JSON renderer (dev or not) writes them as arrays / objects
+        import collections
+        return rng.pick([(set(), []), (frozenset(), []), (collections.deque(), []), (range(0), []), (collections.UserDict(), {}),
+                         (collections.UserList(), []), ({'inner': set()}, {'inner': []}), ([set(), 3], [[], 3]),
+                         ({'a': collections.deque(), 'b': frozenset()}, {'a': [], 'b': []}), (collections.OrderedDict(), {}),
+                         (collections.deque([1, 'two']), [1, 'two']), (range(3), [0, 1, 2]), (collections.UserDict({'k': [1]}), {'k': [1]}),
+                         ({'r': range(2), 'e': range(0)}, {'r': [0, 1], 'e': []}), (set([7]), [7]), ([[], {}, (), set()], [[], {}, [], []]),
+                         (collections.ChainMap(), {}), (collections.Counter(), {}), (collections.Counter('aab'), {'a': 2, 'b': 1})])
     if r == 0:
         # tuples are sequences - also short ones whose second member happens to look like a status code
         return rng.pick([((1, 2, 'three'), [1, 2, 'three']), ((7, 200), [7, 200]), (('not found', 404), ['not found', 404]),
@@ -430,6 +442,8 @@ def judge_json_renderers(sh, rng):
     case = {'renderer': path, 'value': short(v), 'query': query}
     sh.case(case, nontrivial=True, klass='json%s:%s' % (path, mode), sample=dict(case, status=ex.status, ctype=mime(ex), body=ex.body[:80]))
     needs_dev = mode == 'exotic' and (expect is None or 'Plain' in short(v))
+    if mode == 'exotic' and not needs_dev:
+        sh.hit('json:collection-or-convertible-in-any-mode')
     if mode == 'exotic' and not dev:
         if needs_dev:
             return          # a non-dev renderer may refuse unknown objects
